@@ -9,7 +9,9 @@ both sides, if there is one.  DESIGN.md 5.5.
 """
 import copy as _copy
 
-from sim import core, gen_path as gp, observe as ob
+import io
+
+from sim import core, gen_doc as gd, gen_path as gp, observe as ob
 
 PROPERTY = "C18"
 LEVEL = "exploration"
@@ -41,7 +43,7 @@ G_MUTS = ["fill_red", "fill_opacity", "stroke_green", "stroke_opacity", "sw", "f
 E_MUTS = ["set", "values_item", "id"]
 PATH_MUTS = ["setitem_str", "insert_str", "slice_del", "reify", "seg_end_x", "seg_start_y", "seg_ctrl", "seg_imul", "append", "insert", "setitem", "delitem", "iadd_str", "reverse", "seg_end_rebind", "subpath_imul", "subpath_reverse", "subpath_seg"]
 WARM = ["d", "bbox", "length", "count_subpaths", "subpath", "eq", "segments", "repr"]
-SHAPE_MUTS = ["reify", "attr"]
+SHAPE_MUTS = ["reify", "attr", "attr_inplace"]
 POLY_MUTS = ["pt_x", "pts_append", "pts_del", "pt_imul", "pt_rebind", "pts_slice"]
 GROUP_MUTS = ["g_append", "g_del", "g_child_imul", "g_child_fill", "g_child_attr", "g_child_reify", "g_child_set", "g_child_seg", "g_nested"]
 SEG_MUTS = ["s_end_x", "s_start_y", "s_imul", "s_reverse", "s_ctrl", "s_end_rebind"]
@@ -69,8 +71,11 @@ KIND_TABLE = {
     "Polygon": (["matmul_shape", "copy", "ctor", "mul", "mul_str", "abs", "PathOf", "add_shape"], T_MUTS + G_MUTS + E_MUTS + SHAPE_MUTS + POLY_MUTS),
     "Group": (["copy", "GroupOf", "mul", "mul_str", "abs"], T_MUTS + E_MUTS + GROUP_MUTS),
     "GroupNested": (["copy", "GroupOf", "mul", "mul_str", "abs"], T_MUTS + E_MUTS + GROUP_MUTS),
-    "Text": (["copy", "ctor", "mul", "mul_str", "abs"], T_MUTS + G_MUTS + E_MUTS + ["reify", "t_text", "t_x", "t_path_imul", "t_path_seg", "t_path_append"]),
-    "Image": (["copy", "ctor", "mul", "mul_str", "abs"], T_MUTS + G_MUTS + E_MUTS + ["i_url", "i_x"]),
+    "Text": (["copy", "ctor", "mul", "mul_str", "abs"], T_MUTS + G_MUTS + E_MUTS + ["reify", "t_text", "t_x", "t_path_imul", "t_path_seg", "t_path_append", "attr_inplace"]),
+    # elements as SVG.parse returns them (their values hold the nested 'attributes' dict; groups may hold use elements)
+    "ParsedShape": (["copy", "mul", "mul_str", "abs", "PathOf"], T_MUTS + G_MUTS + E_MUTS + ["reify", "attr", "nested_attr", "attr_inplace"]),
+    "ParsedGroup": (["copy", "GroupOf", "mul", "mul_str", "abs"], T_MUTS + E_MUTS + GROUP_MUTS + ["nested_attr", "g_child_nested_attr"]),
+    "Image": (["copy", "ctor", "mul", "mul_str", "abs"], T_MUTS + G_MUTS + E_MUTS + ["i_url", "i_x", "i_viewbox", "attr_inplace"]),
 }
 KINDS = sorted(KIND_TABLE)
 # derivations whose result the property declares independent of the source; for the others
@@ -94,6 +99,15 @@ def _paint(ch):
 
 def _shape_spec(ch, kind):
     spec = {"kind": kind, "nums": [_n(ch) for _ in range(12)], "pos": [abs(_n(ch)) + 0.5 for _ in range(4)]}
+    if kind in ("Rect", "RectR", "Circle", "Ellipse", "SimpleLine", "Text", "Image") and ch.coin(0.25):
+        # geometry stated with units stays a Length object until the element is rendered
+        spec["unit"] = ch.choice(["in", "mm", "%", "cm", "pt"])
+    if kind in ("Circle", "Ellipse") and ch.coin(0.08):
+        spec["pos"][0] = 0.0  # a degenerate (zero radius) shape is still an element
+    if kind in ("ParsedShape", "ParsedGroup"):
+        spec["doc"] = gd.gen_doc(ch, max_elems=ch.int(4, 10), max_depth=2, use_heavy=True, style_sheet=False)
+        spec["pick"] = ch.int(0, 50)
+        spec["reify"] = ch.coin(0.5)
     spec.update(_paint(ch))
     if kind in ("Path", "Subpath"):
         cmds = gp.gen_cmds(ch, ch.int(2, 7), mag=ch.choice([1.0, 100.0]), allow_zc=False, arc_zero=False)
@@ -133,6 +147,10 @@ def generate(seed, index, tier):
     derivs, muts = KIND_TABLE[kind]
     deriv = derivs[(index // len(KINDS)) % len(derivs)]
     case = {"kind": kind, "spec": _obj_spec(ch, kind), "deriv": deriv, "m": ch.choice(DERIV_MATS)}
+    if case["spec"].get("unit") and deriv in ("PathOf", "add_shape", "matmul_shape", "abs"):
+        # the outline (and reify) of a shape whose geometry still has units puts Length objects into Points,
+        # which the Point class documents as outside its purpose: not derived from before it is rendered
+        del case["spec"]["unit"]
     # second operand where the derivation takes one
     if deriv in ("add", "sub", "mulmat", "matmul", "mul_len"):
         case["spec2"] = _obj_spec(ch, kind)
@@ -226,6 +244,21 @@ def build(se, spec):
         path = _apply_paint(se, se.Path(spec["d"]), spec)
         cnt = path.count_subpaths()
         return path.subpath(spec["index"] % cnt)
+    u = spec.get("unit")
+    if u:
+        # the same numbers, spelled with a unit
+        n = ["%s%s" % (abs(v) % 50 + 1, u) for v in n]
+        p = ["%s%s" % (abs(v) % 50 + 1, u) for v in p]
+    if k in ("ParsedShape", "ParsedGroup"):
+        svg = se.SVG.parse(io.StringIO(gd.serialise(spec["doc"])), reify=spec["reify"])
+        want = se.Shape if k == "ParsedShape" else se.Group
+        cands = [e for e in svg.elements() if isinstance(e, want) and not isinstance(e, se.SVG)]
+        if k == "ParsedGroup":
+            withuse = [e for e in cands if any(isinstance(c, se.Use) for c in e)]
+            cands = withuse or cands
+        if not cands:
+            raise ValueError("nothing to pick")
+        return cands[spec["pick"] % len(cands)]
     if k == "Rect":
         return _apply_paint(se, se.Rect(n[0], n[1], p[0], p[1]), spec)
     if k == "RectR":
@@ -247,7 +280,10 @@ def build(se, spec):
             t.path = se.Path("M%s,%s L%s,%s Q%s,%s %s,%s z" % tuple(n[:8]))
         return _apply_paint(se, t, spec)
     if k == "Image":
-        i = se.Image(href="a.png", x=n[0], y=n[1], width=p[0], height=p[1])
+        kw = {}
+        if int(abs(spec["nums"][5])) % 2 == 0:
+            kw["viewBox"] = "0 0 10 20"
+        i = se.Image(href="a.png", x=n[0], y=n[1], width=p[0], height=p[1], **kw)
         return _apply_paint(se, i, spec)
     if k in ("Group", "GroupNested", "SVG"):
         if k == "SVG":
@@ -652,6 +688,25 @@ def mutate(se, o, name, k, v):
     # ---- shapes
     elif name == "reify":
         o.reify()
+    elif name == "attr_inplace":
+        # an in-place arithmetic edit of a geometric property (a float is rebound, a Length is modified)
+        for attr in ("x", "cx", "x1", "width", "rx", "y"):
+            cur = getattr(o, attr, None)
+            if cur is not None and not isinstance(cur, (str, bool)):
+                cur *= 2
+                setattr(o, attr, cur)
+                return True
+        return False
+    elif name == "nested_attr":
+        va = o.values.get("attributes") if isinstance(o.values, dict) else None
+        if not isinstance(va, dict):
+            return False
+        va["data-z"] = "z%d" % k
+    elif name == "i_viewbox":
+        vb = getattr(o, "viewbox", None)
+        if vb is None:
+            return False
+        vb.x = v
     elif name == "attr":
         for attr in ("x", "cx", "x1"):
             if hasattr(o, attr) and isinstance(getattr(o, attr), (int, float)):
@@ -844,6 +899,11 @@ def _mut_group(se, g, name, k, v, Mx):
         c.reify()
     elif name == "g_child_set":
         c.set("data-c", "x%d" % k)
+    elif name == "g_child_nested_attr":
+        va = c.values.get("attributes") if isinstance(getattr(c, "values", None), dict) else None
+        if not isinstance(va, dict):
+            return False
+        va["data-z"] = "c%d" % k
     elif name == "g_child_seg":
         if isinstance(c, se.Path) and len(c):
             return _mut_seg(se, c[_idx(k, len(c))], "end_x", k, v, Mx)
